@@ -24,7 +24,21 @@ CFG_REDUCED = {"values": (3,), "templates": ("mul2", "inc"), "unreg": True}
 CFG_REDUCED_T = {"values": (3,), "templates": ("mul2", "inc", "neg"), "iops": (("add", ("lit", 1)),),
                  "unreg": True}
 
-ALPHABETS = {"full": CFG_FULL, "mix": CFG_MIX, "reduced": CFG_REDUCED, "reduced_t": CFG_REDUCED_T}
+# in-place operators whose operand is a REF, on few locations, deeper
+CFG_IOPREF = {"values": (3, 5), "templates": ("mul2",), "iops": (("add", ("src",)), ("sub", ("src",)), ("mul", ("lit", 2))), "unreg": True,
+              "leaves_n": 3}
+# two linear knobs sharing a target, plain values assigned to knob targets, a reader of a knob target
+CFG_KNOBS = {"values": (3, 5), "templates": ("mul2",), "knobs": ("K1", "K2")}
+ALPHABETS = {"full": CFG_FULL, "mix": CFG_MIX, "reduced": CFG_REDUCED, "reduced_t": CFG_REDUCED_T, "iopref": CFG_IOPREF, "knobs": CFG_KNOBS}
+
+
+def alphabet_for(world, name):
+    cfg = dict(ALPHABETS[name])
+    n = cfg.pop("leaves_n", None)
+    if n:
+        cfg["leaves"] = world["leaves"][:n]
+        cfg["sources"] = world["leaves"][:n]
+    return cfg
 
 
 class System(ManagerSystem):
@@ -36,11 +50,11 @@ def plan(tier, seed):
     seeds = common.seeds_for(tier, seed)
     jobs = []
     if tier == "quick":
-        runs = [("W-nest", "full", 2), ("W-nest-4", "reduced", 4), ("W-mix", "mix", 2)]
+        runs = [("W-nest", "full", 2), ("W-nest-4", "reduced", 4), ("W-mix", "mix", 2), ("W-flat", "iopref", 4), ("W-knobs", "knobs", 4)]
         fam_sizes, fam_big = (1, 10, 100, 900, 1100), (3000,)
     else:
         runs = [("W-nest", "full", 3), ("W-nest-small", "reduced_t", 4), ("W-nest-small", "reduced", 5),
-                ("W-mix", "mix", 3)]
+                ("W-mix", "mix", 3), ("W-flat", "iopref", 5), ("W-nest-4", "iopref", 4), ("W-knobs", "knobs", 6)]
         fam_sizes, fam_big = (1, 10, 100, 900, 1100, 3000), (20000,)
     for hs in seeds:
         for wname, alpha, depth in runs:
@@ -62,7 +76,7 @@ def plan(tier, seed):
 def run_job(job):
     a = job["args"]
     if a["kind"] == "bfs":
-        s = System(WORLDS[a["world"]], ALPHABETS[a["alphabet"]], common.config_info(job))
+        s = System(WORLDS[a["world"]], alphabet_for(WORLDS[a["world"]], a["alphabet"]), common.config_info(job))
         return common.run_bfs(s, job)
     return run_family(job)
 
